@@ -84,7 +84,67 @@ def probe(fail):
     else:
         if x5.grad is not None or y5.grad is not None:
             fail("untracked backward wrote a gradient")
-    del x, y, x2, v, x3, z, x4, x5, y5
+    # 6. backward on a CONSTANT tensor whose graph was recorded with tracking on (harness forces the
+    #    module switch while building it): inside no_autodiff backward() must do nothing at all
+    saved = (_track.TRACK_GRAPH, _mem.MEM_GUARD)
+    _track.TRACK_GRAPH = True
+    try:
+        x6 = fresh(with_grad=False)
+        c6 = mg.multiply(x6, 3.0, constant=True)
+    finally:
+        _track.TRACK_GRAPH, _mem.MEM_GUARD = saved
+    had = (c6.creator is not None, len(x6._ops) > 0)
+    c6.backward()
+    now = (c6.creator is not None, len(x6._ops) > 0)
+    if not records and now != had:
+        fail("untracked backward on a constant tensor changed the recorded graph: %s -> %s" % (had, now))
+    if records and now != (False, False):
+        fail("tracked backward on a constant tensor did not clear its graph")
+    if x6.grad is not None:
+        fail("backward on a constant tensor wrote a gradient")
+    # 7. assigning .shape: same outcome as NumPy on the same array, and (untracked) the same memory
+    base7 = np.arange(6.0).reshape(2, 3)
+    t7 = mg.tensor(base7.T, copy=False)
+    ref7 = base7.T
+    try:
+        ref7 = ref7.view()
+        ref7.shape = (6,)
+        np_exc = None
+    except Exception as e:
+        np_exc = type(e).__name__
+    try:
+        t7.shape = (6,)
+        mg_exc = None
+    except Exception as e:
+        mg_exc = type(e).__name__
+    if not records:
+        if (np_exc is None) != (mg_exc is None):
+            fail("untracked t.shape = ... on a non-contiguous tensor: NumPy %s, MyGrad %s" % (np_exc, mg_exc))
+        if not np.shares_memory(t7.data, base7):
+            fail("untracked shape assignment detached the tensor from its memory")
+    t8 = mg.tensor(np.arange(6.0))
+    d8 = t8.data
+    t8.shape = (2, 3)
+    if t8.shape != (2, 3) or not np.array_equal(t8.data, np.arange(6.0).reshape(2, 3)):
+        fail("shape assignment value")
+    if not records and not np.shares_memory(t8.data, d8):
+        fail("untracked shape assignment copied the data")
+    # 8. augmented assignment and out= write into the tensor's own memory when untracked
+    x9 = fresh(with_grad=False)
+    d9 = x9.data
+    x9 += 1.0
+    if not np.array_equal(x9.data, arr + 1.0):
+        fail("augmented assignment value")
+    if not records and (x9.data is not d9 or not np.array_equal(d9, arr + 1.0)):
+        fail("untracked += did not write into the tensor's own memory")
+    x10 = fresh(with_grad=False)
+    d10 = x10.data
+    r10 = mg.multiply(x10, 2.0, out=x10)
+    if r10 is not x10 or not np.array_equal(x10.data, arr * 2.0):
+        fail("out= target value/identity")
+    if not records and x10.data is not d10:
+        fail("untracked out= did not write into the tensor's own memory")
+    del x, y, x2, v, x3, z, x4, x5, y5, x6, c6, t7, t8, x9, x10, r10
     return [bool(records), bool(locks)]
 
 
